@@ -153,7 +153,8 @@ impl<'a> TryFrom<&'a str> for Header<'a> {
             None => input.len(),
         };
 
-        parse_header(&input[..length])
+        // The window may end inside a multi-byte character when the first CR is followed by one.
+        parse_header(input.get(..length).ok_or(ParseError::InvalidSuffix)?)
     }
 }
 
